@@ -204,6 +204,8 @@ def check(rep, F, tier, replay=None):
             rep.inst("SUB")
             for sub, op, ty, loc in raw_amount_ops(F, f2, types={"u64", "i64", "u128", "i128"}):
                 rep.violation("SUB", "%s|raw|%s" % (key, op), "%s uses a raw %s on %s" % (key, op, ty), {})
+    from ruleutil import placeholder_full_rule
+    placeholder_full_rule(rep, F)
     return rep.finish(
         EXPLANATION,
         ["min_ada_for_output is C07's concern", "BigNum::div_floor(100) is exact floor division (divisor constant non-zero)"],
